@@ -508,12 +508,13 @@ class Orders:
             return self._summ[fi.qual]
         self._summ[fi.qual] = ('UNK', 'recursive ' + fi.short)
         F = fi.node
-        rets = [n for n in q.walk(F, False) if isinstance(n, ast.Return) and n.value is not None]
+        rets = sorted([n for n in q.walk(F, False) if isinstance(n, ast.Return) and n.value is not None], key=lambda n: (n.lineno, n.col_offset))
         tags = []
         for rt in rets:
             env = self.flow(fi, F, upto=rt)
             tags.append(self.tag(rt.value, env, fi, F))
         bad = [t for t in tags if not deterministic(t)]
-        res = bad[0] if bad else (tags[-1] if tags else ('ONE',))
+        structured = [t for t in tags if t[0] not in ('PARAM', 'ONE') and not (t[0] == 'CAT' and not t[1])]
+        res = bad[0] if bad else (structured[-1] if structured else (tags[-1] if tags else ('ONE',)))
         self._summ[fi.qual] = res
         return res
